@@ -101,6 +101,14 @@ def metric_menu():
             else:
                 iv = verif.interval.Interval(1.25, np.inf, False, False)
             out.append((name.lower(), m, iv))
+        # the same scores under another -agg statistic: a slice without a valid case has no total, no maximum and no count of its own
+        import verif.aggregator
+        for name in ("obs", "fcst", "mae", "pit"):
+            for aggname in ("sum", "max"):
+                m = verif.metric.get(name)
+                if m is not None and m.supports_aggregator:
+                    m.aggregator = verif.aggregator.get(aggname)
+                    out.append(("%s@%s" % (name, aggname), m, verif.interval.Interval(1.25, np.inf, False, False)))
         _METRICS = out
     return _METRICS
 
@@ -268,7 +276,9 @@ def h_single(ctx):
     agg = None
     if ctx.params.get("agg") and all(m[1] in ("obs", "fcst", "e0", "e1", "e2") for m in marks) and all(e == encs_menu[0] for e in encs):
         agg = ctx.choose("-T", (None, 48), free=True)
-    kwr = {"agg_len": agg, "agg_axis": "leadtime", "agg_method": "mean"} if agg else {}
+    # ... whatever the statistic: a total over a window with a missing value is missing too, not the total of the rest
+    aggm = ctx.choose("-Tagg", ("mean", "sum"), free=True) if agg else "mean"
+    kwr = {"agg_len": agg, "agg_axis": "leadtime", "agg_method": aggm} if agg else {}
     marked = [a.copy() for a in inputs]
     canonical = [a.copy() for a in inputs]
     file_inputs = [a.copy() for a in inputs]
@@ -290,9 +300,10 @@ def h_single(ctx):
     import verif.data
     import verif.axis
     import verif.aggregator
-    kwd = {"dim_agg_length": agg, "dim_agg_axis": verif.axis.Leadtime(), "dim_agg_method": verif.aggregator.Mean()} if agg else {}
+    kwd = {"dim_agg_length": agg, "dim_agg_axis": verif.axis.Leadtime(), "dim_agg_method": verif.aggregator.get(aggm)} if agg else {}
     if agg:
         ctx.flag("agg")
+        agg = (agg, aggm)          # key of the cached canonical / deleted datasets
     kind, objs, site, out = H.quiet_call(build_from_files, file_inputs, via, marks, encs)
     if kind != "ok":
         ctx.fail("read-%s:%s" % (kind, site), stdout=out[-200:])
@@ -454,6 +465,24 @@ def h_arrays(ctx):
             ctx.fail("arrays:%s:differs-from-the-score-with-the-missing-pairs-deleted" % name.lower(), obs=on, fcst=fn, with_nan=a, deleted=b)
         sig.append(None if math.isnan(b) else round(b, 9))
         ctx.count()
+    # the event indicator the spatial / marginal diagrams average (util.apply_threshold on arrays that still contain the missing
+    # values): a missing value is neither an event nor a non-event, so the event frequency equals that of the array without it
+    import verif.util
+    for btype, args in (("above", (1.5,)), ("below=", (2.0,)), ("above=", (2.0,)), ("below", (2.5,)), ("within", (1.0, 2.5)), ("=within=", (0.5, 2.0))):
+        for label, full, dense in (("obs", on, [x for x in on if not math.isnan(x)]), ("fcst", fn, [x for x in fn if not math.isnan(x)])):
+            k1, r1, s1, _ = H.quiet_call(verif.util.apply_threshold, np.array(full, dtype=float), btype, *args)
+            k2, r2, s2, _ = H.quiet_call(verif.util.apply_threshold, np.array(dense, dtype=float), btype, *args)
+            if k1 != "ok" or k2 != "ok":
+                ctx.fail("arrays:apply_threshold:%s:%s" % (k1 if k1 != "ok" else k2, s1 or s2), bin=btype)
+                continue
+            r1 = np.ma.filled(np.ma.asarray(r1, dtype=float), np.nan) if isinstance(r1, np.ma.MaskedArray) else np.asarray(r1, dtype=float)
+            r2 = np.asarray(r2, dtype=float)
+            nan_kept = all(math.isnan(float(r1[i])) for i in range(n) if math.isnan(full[i]))
+            ctx.require(nan_kept, "arrays:event-indicator-of-a-missing-value-is-a-number", bin=btype, values=full, indicator=r1.tolist())
+            if dense:
+                a, b = float(np.nanmean(r1)) if np.isfinite(r1).any() else float("nan"), float(np.mean(r2))
+                ctx.require(a == b, "arrays:event-frequency-differs-from-that-of-the-valid-values", bin=btype, values=full, with_nan=a, deleted=b)
+            ctx.count()
     if len(mask) == 2 and mask[0][0] != mask[1][0] and mask[0][1] != mask[1][1]:
         ctx.flag("nan-at-different-positions")
     ctx.observe((tuple(on), tuple(fn)))
